@@ -89,6 +89,7 @@ func (r *runReport) finish() int {
 		Secs       float64 `json:"secs"`
 	}
 	var samples []sample
+	os.RemoveAll(filepath.Join(r.replayDir, r.prop))
 	os.MkdirAll(filepath.Join(r.replayDir, r.prop), 0o755)
 	for _, o := range r.all {
 		if r.verbose {
@@ -166,6 +167,9 @@ func (r *runReport) finish() int {
 		}
 		if len(fr.Abstracted) > 0 {
 			ent["abstracted"] = fr.Abstracted
+			if r.verbose {
+				fmt.Printf("  abstracted in %s: %v\n", shortFnKey(fr.Key), fr.Abstracted)
+			}
 		}
 		var unk []string
 		for _, c := range fr.Callees {
